@@ -7,7 +7,7 @@ LEVEL = 'proof'
 def run(rep, work, rng, tier):
     common.proof_part(rep, 'C13')
     shared = work.sub('shared')
-    n = 150 if tier == 'quick' else 4000
+    n = 150 if tier == 'quick' else 12000
     cases = []; kinds = {}
     def add(kind, cid, lines):
         cases.append((cid, lines)); kinds[kind] = kinds.get(kind, 0) + 1
